@@ -76,7 +76,7 @@ def random_pattern(typ: str, rnd: random.Random) -> str:
     return s
 
 
-def random_value(typ: str, rnd: random.Random, cals):
+def random_value(typ: str, rnd: random.Random, cals, year0: float = 0.08):
     from pyoda_time import AnnualDate, Duration, Instant, LocalDate, LocalTime, Offset
 
     def nod():
@@ -90,14 +90,18 @@ def random_value(typ: str, rnd: random.Random, cals):
     if typ == "LocalDate":
         cal = rnd.choice(cals)
         c = rnd.random()
+        if c > 1 - year0:
+            # around (ISO) year 0: small and negative absolute years
+            return LocalDate._ctor(days_since_epoch=min(max(-719528 + rnd.randint(-45000, 45000), cal._min_days), cal._max_days), calendar=cal)
         d = cal._min_days + rnd.randint(0, 400) if c < 0.1 else cal._max_days - rnd.randint(0, 400) if c < 0.2 else \
             rnd.randint(max(cal._min_days, -30000), min(cal._max_days, 60000)) if c < 0.7 else rnd.randint(cal._min_days, cal._max_days)
         return LocalDate._ctor(days_since_epoch=d, calendar=cal)
     if typ == "LocalDateTime":
-        return random_value("LocalDate", rnd, cals).at(LocalTime.from_nanoseconds_since_midnight(nod()))
+        return random_value("LocalDate", rnd, cals, year0).at(LocalTime.from_nanoseconds_since_midnight(nod()))
     if typ == "Instant":
         c = rnd.random()
-        day = rnd.choice([-4371222, 2932896]) if c < 0.1 else rnd.randint(-30000, 60000) if c < 0.6 else rnd.randint(-4371222, 2932896)
+        day = -719528 + rnd.randint(-45000, 45000) if c > 1 - year0 else rnd.choice([-4371222, 2932896]) if c < 0.1 else \
+            rnd.randint(-30000, 60000) if c < 0.55 else rnd.randint(-4371222, 2932896)
         return Instant._ctor(days=day, nano_of_day=nod())
     if typ == "Duration":
         c = rnd.random()
